@@ -13,7 +13,8 @@
    (C10_init_dict / C10_init_maildir) and is preserved (part of the proof). *)
 From PV Require Import Base.Prelude Wire.SeqSet Wire.SeqSetProofs
   RefModel.Flags RefModel.Model RefModel.Spec RefModel.BoxLemmas RefModel.AddrProofs
-  RefModel.SimBase RefModel.SimStore RefModel.SimOther RefModel.SimNew RefModel.InitOk RefModel.Proofs.
+  RefModel.SimBase RefModel.SimStore RefModel.SimOther RefModel.SimNew RefModel.InitOk RefModel.Proofs
+  RefModel.Told RefModel.ToldProofs.
 
 (* C10: for EVERY program (any length) over SELECT/EXAMINE, APPEND and MULTIAPPEND
    (all-or-nothing when the backend fails on a message), STORE (FLAGS/+FLAGS/-FLAGS,
@@ -53,6 +54,31 @@ Theorem C10_sim_step : forall st c, Good st -> wf_cmd c ->
   abs (fst (step st c)) = fst (spec_step (abs st) c) /\ InvW (fst (step st c)).
 Proof. exact sim_stepW. Qed.
 Print Assumptions C10_sim_step.
+
+(* C10 with OTHER connections: for every LABELLED program — the session's commands with
+   any number of changes by other connections in between (LExt: another connection
+   changes flags / delivers a message / expunges) — the model equals the told-view
+   reference of Told.v, responses and whole final state: sequence numbers, '*' and UID
+   ranges denote positions / UIDs in what the session has been told so far (RFC
+   denotation, [addressed]); each command acts on the mailbox in one step on the live
+   messages with the addressed UIDs (one map / filter / append; vanished ones are skipped
+   or answered from what was told, with [EXPUNGEISSUED]); then the session is told the
+   difference.  Neither the per-message loops nor SequenceSet flattening occur in the
+   reference.  [Wk st]: mailboxes well-formed (UIDs ascending, positive, below the UID
+   counter), no mailbox called GONE, and what the session was told is an ascending list
+   of positive UIDs not above the counter of its mailbox — no synchrony between the two
+   is assumed.  The proof shows [Wk] is kept by every command and every LExt. *)
+Theorem C10_refines_interleaved : forall prog st, Wk st -> Forall wf_label prog ->
+  run_l st prog = t_run_l st prog.
+Proof. exact told_refines_main. Qed.
+Print Assumptions C10_refines_interleaved.
+
+(* [Wk] holds for the states a connection starts from and for every state in sync *)
+Theorem C10_interleaved_init : forall st,
+  (init_ok st = true \/ init_ok_maildir st = true \/
+   (Inv st /\ lookup GONE (st_boxes st) = None)) -> Wk st.
+Proof. exact Wk_holds. Qed.
+Print Assumptions C10_interleaved_init.
 
 (* sequence sets, UID sets and '*': the spec addresses a message exactly when
    the set denotes its number in the sense of RFC 3501 (Wire/SeqSet.v [denotes]:
